@@ -61,7 +61,7 @@ func (e *Engine) newCtx(fn *ssa.Function, spec *FuncSpec, mode string) *FnCtx {
 		eng: e, sc: sc, ty: NewTypes(sc), fn: fn, spec: spec, mode: mode,
 		assumed: map[string]bool{}, unmodelled: map[string]bool{}, inlined: map[string]bool{},
 		obSeq: map[string]int{}, ghostDecl: map[string]bool{}, maxDepth: 8,
-		nonNil: map[string]bool{}, ranges: map[string]*rangeState{}, lastCall: map[string]Val{}, sliceLen: map[string]string{}, intUB: map[string]int{}, guardOf: map[string]string{}, guardSub: map[string]*guardInfo{}, constCell: map[string]Val{}, writeOnce: map[string]bool{},
+		nonNil: map[string]bool{}, ranges: map[string]*rangeState{}, lastCall: map[string]Val{}, sliceLen: map[string]string{}, intUB: map[string]int{}, guardOf: map[string]string{}, guardSub: map[string]*guardInfo{}, constCell: map[string]Val{}, writeOnce: map[string]bool{}, trackArgT: map[string]types.Type{}, freshMsgs: map[string]string{},
 	}
 	return c
 }
@@ -106,6 +106,9 @@ func (e *Engine) VerifyFunc(spec *FuncSpec, mode string, kf *KnownFindings) *FnR
 	rep.Name = e.funcName(fn)
 	if spec.Trusted || spec.NoVerify {
 		return rep
+	}
+	if spec.Inline && len(spec.Requires) == 0 && len(spec.Ensures) == 0 {
+		return rep // only carries loop annotations for the places it is inlined into
 	}
 	for pass := 0; pass < 4; pass++ {
 		c := e.newCtx(fn, spec, mode)
@@ -328,7 +331,7 @@ func (e *Engine) VerifyLemma(lm *LemmaSpec) *FnReport {
 	rep := &FnReport{Name: strings.TrimPrefix(strings.TrimPrefix(lm.Pkg, e.module+"/"), "pkg/") + ".lemma." + lm.Name}
 	for pass := 0; pass < 4; pass++ {
 		sc := NewScript()
-		c := &FnCtx{eng: e, sc: sc, ty: NewTypes(sc), assumed: map[string]bool{}, unmodelled: map[string]bool{}, inlined: map[string]bool{}, obSeq: map[string]int{}, ghostDecl: map[string]bool{}, nonNil: map[string]bool{}, ranges: map[string]*rangeState{}, lastCall: map[string]Val{}, sliceLen: map[string]string{}, intUB: map[string]int{}, guardOf: map[string]string{}, guardSub: map[string]*guardInfo{}, constCell: map[string]Val{}, writeOnce: map[string]bool{}}
+		c := &FnCtx{eng: e, sc: sc, ty: NewTypes(sc), assumed: map[string]bool{}, unmodelled: map[string]bool{}, inlined: map[string]bool{}, obSeq: map[string]int{}, ghostDecl: map[string]bool{}, nonNil: map[string]bool{}, ranges: map[string]*rangeState{}, lastCall: map[string]Val{}, sliceLen: map[string]string{}, intUB: map[string]int{}, guardOf: map[string]string{}, guardSub: map[string]*guardInfo{}, constCell: map[string]Val{}, writeOnce: map[string]bool{}, trackArgT: map[string]types.Type{}, freshMsgs: map[string]string{}}
 		rep.ctx = c
 		err := func() (err error) {
 			defer func() {
@@ -388,12 +391,21 @@ func (e *Engine) VerifyLemma(lm *LemmaSpec) *FnReport {
 // assumeAxioms: definitional axioms of spec functions (evaluated over the entry heap).
 func (c *FnCtx) assumeAxioms(env *Env, pkg string) {
 	for _, ax := range c.eng.specs.Axioms {
-		if ax.Pkg != pkg {
-			continue
-		}
 		ne := *env
 		ne.specPkg = ax.Pkg
-		c.sc.AssumeAxiom(c.evalBool(&ne, ax.E))
+		ne.names = map[string]Val{}
+		ne.fr = nil
+		ne.loop = nil
+		t := c.evalBool(&ne, ax.E)
+		if ax.Pkg != pkg {
+			// an axiom of another package only matters if the query mentions what it talks about (a spec function
+			// or a package-level variable); mark it so that the query builder can decide
+			t = "(! " + t + " :named " + q("axiom$"+ax.Name) + ")"
+			if specSymRe.FindString(t) == "" && globalSymRe.FindString(t) == "" {
+				continue
+			}
+		}
+		c.sc.AssumeAxiom(t)
 		c.assumed["axiom "+ax.Name+": "+ax.Text] = true
 	}
 }
